@@ -1,1 +1,313 @@
-/- C06: property theorems (not built yet). -/
+/-
+  C06 — Iterative calculation: bounded, tolerance-honest, agrees with plain evaluation.
+
+  Statement (properties.jsonl): "With iterative calculation enabled, evaluate performs at most the requested number
+  of passes; if it stops earlier, no cell changed by more than the tolerance in the last pass, so for a contracting
+  circular system the result lies within q/(1-q) x tolerance of the true fixed point. On a workbook without circular
+  references it returns exactly what non-iterative evaluation returns, on first use and after any set_value history,
+  including formulas that read ranges."
+
+  Model: Pycel/Model/Iter.lean (pass loop, tracker, cycle cells; a range read is the list of its cells inside
+  `Formula.reads`).  Lemmas: Pycel/Lemmas/Iter.lean, Pycel/Lemmas/IterSem.lean.
+-/
+import Pycel.Lemmas.IterSem
+namespace Pycel.Iter
+
+/-! ## "evaluate performs at most the requested number of passes" -/
+
+/-- For EVERY first-pass / pass function (any workbook, any step function) and every limit `N`: at least one pass
+    runs, never more than `max 1 N`, and the loop — run with fuel `N` — ends because the tracker reports `done`
+    (limit reached or nothing scheduled), i.e. the fuel bound of the model is the code's real bound. -/
+theorem C06_bounded_generic (first step : St → List V × St) (N : Int) (s : St) :
+    1 ≤ (loopFrom first step N s).1 ∧
+    ((loopFrom first step N s).1 : Int) ≤ max 1 N ∧
+    done N (loopFrom first step N s).1 (loopFrom first step N s).2.2 = true := by
+  unfold loopFrom
+  split
+  · rename_i h
+    refine ⟨Nat.le_refl 1, ?_, h⟩
+    omega
+  · rename_i h
+    have hN := not_done_one h
+    have hf : loopFuel N = N.toNat := by unfold loopFuel; split <;> omega
+    have hk : 0 < loopFuel N - 1 := by omega
+    have hb := loop_bounds step N (loopFuel N - 1) 1 (first s).2 hk
+    have hd := loop_done step N (loopFuel N - 1) 1 (first s).2 hk (by omega)
+    refine ⟨by omega, ?_, hd⟩
+    omega
+
+/-- `evaluate(addr, iterations, tolerance)`: the number of passes is between 1 and the requested number
+    (`iterations or cycles['iterations'] or 10000`), for every workbook, state, target list and tolerance. -/
+theorem C06_bounded (wb : Workbook) (cfgIter argIter : Option Int) (cfgTol argTol : Option Rat) (fuel : Nat)
+    (pre targets : List Nat) (s : St) :
+    1 ≤ (evaluateIter wb cfgIter argIter cfgTol argTol fuel pre targets s).1 ∧
+    (1 ≤ resolveIter argIter cfgIter →
+      ((evaluateIter wb cfgIter argIter cfgTol argTol fuel pre targets s).1 : Int) ≤ resolveIter argIter cfgIter) := by
+  have h := C06_bounded_generic
+    (passWith wb (resolveTol argTol cfgTol) fuel pre targets) (pass wb (resolveTol argTol cfgTol) fuel targets)
+    (resolveIter argIter cfgIter) s
+  refine ⟨h.1, fun h1 => ?_⟩
+  have := h.2.1
+  show ((loopFrom _ _ _ s).1 : Int) ≤ _
+  omega
+
+/-- an explicit request wins: `evaluate(addr, iterations=n)` with n ≠ 0 is bounded by n whatever the configuration -/
+theorem C06_bounded_arg (n : Int) (hn : n ≠ 0) (cfg : Option Int) : resolveIter (some n) cfg = n := by
+  simp [resolveIter, hn]
+
+/-! ## "if it stops earlier, no cell changed by more than the tolerance in the last pass" -/
+
+theorem passWith_inv (wb : Workbook) (tol : Rat) (fuel : Nat) (pre targets : List Nat) (s : St) :
+    Inv tol (passWith wb tol fuel pre targets s).2 := by
+  unfold passWith
+  have h0 : Inv tol (clear s) := by intro d hd; simp [clear] at hd
+  have h1 := mapAccum_good tol _ (evalCell_good wb tol fuel) pre (clear s)
+  have h2 := mapAccum_good tol _ (evalCell_good wb tol fuel) targets
+    (mapAccum (evalCell wb tol fuel) pre (clear s)).2
+  exact h2.2 (h1.2 h0)
+
+/-- The code's exact rule.  If `evaluate` returns before the limit, then every cell computed in the last pass
+    satisfies `close_enough(prev, tol)`: two numbers differ by LESS THAN (1 + 10⁻⁵)·tolerance (the factor is
+    `rel=0.00001` of `_CellBase.close_enough`, stated here, not hidden), and a non-number is unchanged. -/
+theorem C06_stop_honest (wb : Workbook) (cfgIter argIter : Option Int) (cfgTol argTol : Option Rat) (fuel : Nat)
+    (pre targets : List Nat) (s : St) (passes : Nat) (vals : List V) (s' : St)
+    (hr : evaluateIter wb cfgIter argIter cfgTol argTol fuel pre targets s = (passes, vals, s'))
+    (hearly : (passes : Int) < resolveIter argIter cfgIter) :
+    ∀ d, d ∈ s'.computed →
+      closeEnough (resolveTol argTol cfgTol) (s'.cell d).val (s'.cell d).prev = true ∧
+      (∀ x y, (s'.cell d).val = some x → (s'.cell d).prev = some y →
+        rabs (y - x) < (1 + 1 / 100000) * resolveTol argTol cfgTol) := by
+  intro d hd
+  have hb := C06_bounded_generic
+    (passWith wb (resolveTol argTol cfgTol) fuel pre targets) (pass wb (resolveTol argTol cfgTol) fuel targets)
+    (resolveIter argIter cfgIter) s
+  have hinv : Inv (resolveTol argTol cfgTol) (loopFrom (passWith wb (resolveTol argTol cfgTol) fuel pre targets)
+      (pass wb (resolveTol argTol cfgTol) fuel targets) (resolveIter argIter cfgIter) s).2.2 := by
+    unfold loopFrom
+    split
+    · exact passWith_inv wb _ fuel pre targets s
+    · exact loop_inv _ _ _ (fun s => passWith_inv wb _ fuel [] targets s) _ _ _
+        (passWith_inv wb _ fuel pre targets s)
+  have hr' : loopFrom (passWith wb (resolveTol argTol cfgTol) fuel pre targets)
+      (pass wb (resolveTol argTol cfgTol) fuel targets) (resolveIter argIter cfgIter) s = (passes, vals, s') := hr
+  rw [hr'] at hb hinv
+  have hdone := hb.2.2
+  have htodo : s'.todo = [] := by
+    simp only [done, Bool.or_eq_true, decide_eq_true_eq] at hdone
+    rcases hdone with h | h
+    · omega
+    · exact List.isEmpty_iff.mp h
+  have hce : closeEnough (resolveTol argTol cfgTol) (s'.cell d).val (s'.cell d).prev = true := by
+    rcases (hinv d hd).2 with h | h
+    · rw [htodo] at h; cases h
+    · exact h
+  refine ⟨hce, fun x y hx hy => ?_⟩
+  rw [hx, hy] at hce
+  have := of_decide_eq_true hce
+  simpa [rel] using this
+
+/-! ## "so for a contracting circular system the result lies within q/(1-q) x tolerance of the true fixed point" -/
+
+/-- Pointwise form over the finitely many cells `L`: if the new values `x'` are within q·‖x − x*‖ of the fixed point
+    and moved by at most τ, they are within q/(1−q)·τ of the fixed point. -/
+theorem C06_fixed_point_bound_cells (L : List Nat) (x x' xs : Nat → Rat) (q t : Rat)
+    (hq0 : 0 ≤ q) (hq1 : q < 1) (ht : 0 ≤ t)
+    (hcontr : ∀ d, d ∈ L → rabs (x' d - xs d) ≤ q * supErr L x xs)
+    (hmove : ∀ d, d ∈ L → rabs (x' d - x d) ≤ t) :
+    ∀ d, d ∈ L → rabs (x' d - xs d) ≤ q / (1 - q) * t := by
+  have hE0 := supErr_nonneg L x xs
+  have hqE : 0 ≤ q * supErr L x xs := by
+    have := Rat.mul_le_mul_of_nonneg_left hE0 hq0; simpa using this
+  have hE : supErr L x xs ≤ t + q * supErr L x xs := by
+    apply supErr_le _ _ _ _ (by grind)
+    intro d hd
+    have h1 := rabs_triangle (x d) (x' d) (xs d)
+    have h2 := hmove d hd
+    rw [rabs_sub_comm] at h2
+    have h3 := hcontr d hd
+    grind
+  intro d hd
+  exact Rat.le_trans (hcontr d hd) (contraction_scalar _ q t hq0 hq1 hE)
+
+/-- Sup-norm form: for ANY pass map `T` that is a q-contraction toward `x*` in the sup norm over the finitely many
+    cells `L`,  ‖T x − x‖ ≤ τ  ⇒  ‖T x − x*‖ ≤ q/(1−q)·τ. -/
+theorem C06_fixed_point_bound (L : List Nat) (T : (Nat → Rat) → (Nat → Rat)) (xs : Nat → Rat) (q t : Rat)
+    (hq0 : 0 ≤ q) (hq1 : q < 1) (ht : 0 ≤ t)
+    (hT : ∀ x, supErr L (T x) xs ≤ q * supErr L x xs)
+    (x : Nat → Rat) (hmove : supErr L (T x) x ≤ t) :
+    supErr L (T x) xs ≤ q / (1 - q) * t := by
+  have hpos : 0 ≤ q / (1 - q) * t := by
+    have hE0 := supErr_nonneg L x xs
+    have hE : supErr L x xs ≤ t + q * supErr L x xs := by
+      apply supErr_le _ _ _ _ (by have := Rat.mul_le_mul_of_nonneg_left hE0 hq0; grind)
+      intro d hd
+      have h1 := rabs_triangle (x d) (T x d) (xs d)
+      have h2 := Rat.le_trans (le_supErr L (T x) x d hd) hmove
+      rw [rabs_sub_comm] at h2
+      have h3 := Rat.le_trans (le_supErr L (T x) xs d hd) (hT x)
+      grind
+    have := contraction_scalar _ q t hq0 hq1 hE
+    have h0 : 0 ≤ q * supErr L x xs := by
+      have := Rat.mul_le_mul_of_nonneg_left hE0 hq0; simpa using this
+    exact Rat.le_trans h0 this
+  apply supErr_le _ _ _ _ hpos
+  exact C06_fixed_point_bound_cells L x (T x) xs q t hq0 hq1 ht
+    (fun d hd => Rat.le_trans (le_supErr L (T x) xs d hd) (hT x))
+    (fun d hd => Rat.le_trans (le_supErr L (T x) x d hd) hmove)
+
+/-- "for a contracting circular system": pycel's depth-first pass on x = A x + b with ‖A‖∞ ≤ q ≤ 1 IS such a
+    contraction, for any number of cells, any topology (several interlocking cycles, cycles through ranges — a
+    range is part of `reads`), any targets and any fuel: if before the pass every cell is within `E` of the fixed
+    point `xs`, then after it every cell still is, and every cell computed in the pass is within `q·E`. -/
+theorem C06_pass_contracts (wb : Workbook) (tol : Rat) (fuel : Nat) (pre targets : List Nat)
+    (xs : Nat → Rat) (q E : Rat) (hq0 : 0 ≤ q) (hq1 : q ≤ 1) (hE : 0 ≤ E) (hlin : LinContr wb xs q)
+    (s : St) (hnowip : ∀ d, (s.cell d).wip = false) (hstart : ∀ d, rabs (num (s.cell d).val - xs d) ≤ E) :
+    (∀ d, rabs (num ((passWith wb tol fuel pre targets s).2.cell d).val - xs d) ≤ E) ∧
+    (∀ d, d ∈ (passWith wb tol fuel pre targets s).2.computed →
+      rabs (num ((passWith wb tol fuel pre targets s).2.cell d).val - xs d) ≤ q * E) := by
+  have h0 : GH xs q E (clear s) := by
+    refine ⟨fun d => ⟨hstart d, fun hw => ?_⟩, fun d hd => ?_⟩
+    · have := hnowip d
+      have hw' : (s.cell d).wip = true := hw
+      rw [this] at hw'; cases hw'
+    · simp [clear] at hd
+  have h1 := mapAccum_contr wb tol xs q E hq0 hq1 hE hlin fuel pre _ h0
+  have h2 := mapAccum_contr wb tol xs q E hq0 hq1 hE hlin fuel targets _ h1
+  exact ⟨fun d => (h2.1 d).1, h2.2⟩
+
+/-! ## "On a workbook without circular references it returns exactly what non-iterative evaluation returns, on first
+       use and after any set_value history, including formulas that read ranges." -/
+
+/-- a state between operations: nothing on the stack, input cells hold the current inputs -/
+def Ready (wb : Workbook) (inp : Nat → V) (s : St) : Prop :=
+  (∀ d, (s.cell d).wip = false) ∧ (∀ d, wb d = none → (s.cell d).val = inp d)
+
+theorem mapAccum_acyclic (wb : Workbook) (rank : Nat → Nat) (inp : Nat → V) (tol : Rat) (hac : Acyclic wb rank)
+    (fuel : Nat) : ∀ cs s, (∀ c, c ∈ cs → rank c < fuel) → (∀ d, (s.cell d).wip = false) → J wb rank inp s →
+      (mapAccum (evalCell wb tol fuel) cs s).1 = cs.map (Dn wb rank inp) ∧
+      (∀ d, ((mapAccum (evalCell wb tol fuel) cs s).2.cell d).wip = false) ∧
+      J wb rank inp (mapAccum (evalCell wb tol fuel) cs s).2 := by
+  intro cs
+  induction cs with
+  | nil => intro s _ hw hJ; exact ⟨rfl, hw, hJ⟩
+  | cons c cs ih =>
+    intro s hf hw hJ
+    have h1 := evalCell_acyclic wb rank inp tol hac fuel c s (hf c (List.mem_cons_self ..))
+      (fun d hd => by rw [hw d] at hd; cases hd) hJ
+    have hw1 : ∀ d, ((evalCell wb tol fuel c s).2.cell d).wip = false := fun d => by
+      rw [(evalCell_good wb tol fuel c s).1.wip d]; exact hw d
+    have h2 := ih _ (fun c' hc' => hf c' (List.mem_cons_of_mem _ hc')) hw1 h1.2
+    simp only [mapAccum, List.map_cons]
+    exact ⟨by rw [h1.1, h2.1], h2.2⟩
+
+theorem passWith_acyclic (wb : Workbook) (rank : Nat → Nat) (inp : Nat → V) (tol : Rat) (hac : Acyclic wb rank)
+    (fuel : Nat) (pre targets : List Nat) (hfp : ∀ c, c ∈ pre → rank c < fuel) (hft : ∀ c, c ∈ targets → rank c < fuel)
+    (s : St) (hs : Ready wb inp s) :
+    (passWith wb tol fuel pre targets s).1 = targets.map (Dn wb rank inp) ∧
+    Ready wb inp (passWith wb tol fuel pre targets s).2 := by
+  unfold passWith
+  have hJ0 : J wb rank inp (clear s) := ⟨fun d hd => by simp [clear] at hd, hs.2⟩
+  have h1 := mapAccum_acyclic wb rank inp tol hac fuel pre (clear s) hfp hs.1 hJ0
+  have h2 := mapAccum_acyclic wb rank inp tol hac fuel targets _ hft h1.2.1 h1.2.2
+  exact ⟨h2.1, h2.2.1, h2.2.2.2⟩
+
+/-- On an acyclic workbook (witnessed by any rank function), from ANY state between operations — whatever was
+    evaluated or set before, whatever stale values the cells carry, whatever the iteration limit and tolerance —
+    `evaluate` returns for each target the from-scratch value `denote` (what non-iterative evaluation returns).
+    Ranges are included: a range read is the list of its cells inside `reads`. -/
+theorem C06_acyclic (wb : Workbook) (rank : Nat → Nat) (inp : Nat → V) (hac : Acyclic wb rank)
+    (cfgIter argIter : Option Int) (cfgTol argTol : Option Rat) (fuel : Nat) (pre targets : List Nat)
+    (hfp : ∀ c, c ∈ pre → rank c < fuel) (hft : ∀ c, c ∈ targets → rank c < fuel)
+    (s : St) (hs : Ready wb inp s) :
+    (evaluateIter wb cfgIter argIter cfgTol argTol fuel pre targets s).2.1
+        = targets.map (fun c => denote wb inp (rank c + 1) c) ∧
+    Ready wb inp (evaluateIter wb cfgIter argIter cfgTol argTol fuel pre targets s).2.2 := by
+  show (loopFrom _ _ _ s).2.1 = targets.map (Dn wb rank inp) ∧ Ready wb inp (loopFrom _ _ _ s).2.2
+  have hfirst := passWith_acyclic wb rank inp (resolveTol argTol cfgTol) hac fuel pre targets hfp hft s hs
+  unfold loopFrom
+  split
+  · exact hfirst
+  · rename_i h
+    have hN := not_done_one h
+    have hf : loopFuel (resolveIter argIter cfgIter) = (resolveIter argIter cfgIter).toNat := by
+      unfold loopFuel; split <;> omega
+    exact loop_vals _ _ (Ready wb inp) _
+      (fun s hs => passWith_acyclic wb rank inp (resolveTol argTol cfgTol) hac fuel [] targets
+        (fun c hc => by cases hc) hft s hs)
+      _ 1 _ (by omega) (by omega) hfirst.2
+
+/-- the from-scratch outputs of a history: `set_value` changes an input, `evaluate` reports `denote` -/
+def specOps (wb : Workbook) (rank : Nat → Nat) : List Op → (Nat → V) → List (List V)
+  | [], _ => []
+  | .set c v :: ops, inp => specOps wb rank ops (fun d => if d = c then v else inp d)
+  | .eval _ ts _ _ :: ops, inp => ts.map (fun c => denote wb inp (rank c + 1) c) :: specOps wb rank ops inp
+
+/-- a history is well formed when `set_value` addresses input cells and the fuel covers the evaluated cells -/
+def WfOps (wb : Workbook) (rank : Nat → Nat) (fuel : Nat) : List Op → Prop
+  | [] => True
+  | .set c _ :: ops => wb c = none ∧ WfOps wb rank fuel ops
+  | .eval pre ts _ _ :: ops => (∀ c, c ∈ pre → rank c < fuel) ∧ (∀ c, c ∈ ts → rank c < fuel) ∧ WfOps wb rank fuel ops
+
+/-- "on first use and after any set_value history": along EVERY history of set_value / evaluate operations the
+    values returned by the iterative evaluator are the from-scratch values for the inputs current at that moment. -/
+theorem C06_acyclic_history (wb : Workbook) (rank : Nat → Nat) (hac : Acyclic wb rank)
+    (cfgIter : Option Int) (cfgTol : Option Rat) (fuel : Nat) :
+    ∀ (ops : List Op) (inp : Nat → V) (s : St), WfOps wb rank fuel ops → Ready wb inp s →
+      (runOps wb cfgIter cfgTol fuel ops s).1.map (·.2) = specOps wb rank ops inp := by
+  intro ops
+  induction ops with
+  | nil => intro inp s _ _; rfl
+  | cons op ops ih =>
+    intro inp s hwf hs
+    cases op with
+    | set c v =>
+      simp only [runOps, specOps]
+      apply ih _ _ hwf.2
+      refine ⟨fun d => ?_, fun d hd => ?_⟩
+      · by_cases hdc : d = c
+        · subst hdc; simp [setInput, St.cell, get_upd_same]
+        · simp only [setInput, St.cell, get_upd_ne _ _ _ _ hdc]; exact hs.1 d
+      · by_cases hdc : d = c
+        · subst hdc; simp [setInput, St.cell, get_upd_same]
+        · simp only [setInput, St.cell, get_upd_ne _ _ _ _ hdc, hdc, if_false]; exact hs.2 d hd
+    | eval pre ts ai at_ =>
+      simp only [runOps, specOps, List.map_cons]
+      have h := C06_acyclic wb rank inp hac cfgIter ai cfgTol at_ fuel pre ts hwf.1 hwf.2.1 s hs
+      rw [h.1, ih inp _ hwf.2.2 h.2]
+
+/-! ## non-vacuity: concrete instances of the hypotheses -/
+
+/-- the recon system A1 = 0.5*B1 + 1, B1 = A1 (cells 0, 1): linear, contracting with q = 1, fixed point (2, 2) -/
+def wbDemo : Workbook := fun c =>
+  if c = 0 then some (linFormula [(1/2, 1)] 1) else if c = 1 then some (linFormula [(1, 0)] 0) else none
+
+example : LinContr wbDemo (fun c => if c ≤ 1 then 2 else 0) 1 := by
+  intro c f hf
+  unfold wbDemo at hf
+  split at hf
+  · rename_i h; subst h
+    exact ⟨[(1/2, 1)], 1, by simpa using hf.symm, by decide +kernel, by decide +kernel⟩
+  · split at hf
+    · rename_i h; subst h
+      exact ⟨[(1, 0)], 0, by simpa using hf.symm, by decide +kernel, by decide +kernel⟩
+    · cases hf
+
+/-- first `evaluate(A1)` on the empty-valued workbook: 9 passes, 511/256, stops before the limit of 10000 -/
+example : (let r := evaluateIter wbDemo none none none none 3 [] [0] (initState [])
+           (r.1, r.2.1)) = (9, [some (511/256 : Rat)]) := by decide +kernel
+
+/-- an acyclic workbook with a range: C = A + 1 (cell 2), D = SUM(A:C) (cell 3), inputs A, B -/
+def wbAcyc : Workbook := fun c =>
+  if c = 2 then some (Expr.toFormula (.bin .add (.ref 0) (.lit 1)))
+  else if c = 3 then some (Expr.toFormula (.sum [0, 1, 2])) else none
+
+example : Acyclic wbAcyc (fun c => c) := by
+  intro c f hf j hj
+  unfold wbAcyc at hf
+  split at hf
+  · rename_i h; subst h; cases hf; simp [Expr.toFormula, Expr.reads] at hj; show j < 2; omega
+  · split at hf
+    · rename_i h; subst h; cases hf; simp [Expr.toFormula, Expr.reads] at hj; show j < 3; omega
+    · cases hf
+
+end Pycel.Iter
